@@ -24,7 +24,7 @@ fn opts() -> NodeOpts {
     }
 }
 
-pub const EXISTING: [&str; 10] = ["absent", "empty", "behind", "with-tombstones", "midreset-empty", "midreset-one", "midreset-tombstone", "ahead", "removed", "live"];
+pub const EXISTING: [&str; 11] = ["absent", "empty", "behind", "with-tombstones", "midreset-empty", "midreset-one", "midreset-tombstone", "ahead", "removed", "removed-never-heartbeated", "live"];
 
 fn kv(k: &str, ver: u64, st: u8) -> Op {
     Op::Kv { key: k.into(), value: if st == 1 { String::new() } else { format!("old-{k}{ver}") }, version: ver, status: st }
@@ -71,6 +71,17 @@ pub fn receiver(existing: &str) -> Node {
         "ahead" => {
             n.cc.verif_process_message(hello(1));
             n.cc.verif_process_message(ack(vec![Op::Node { id: x, gc: 0, from: 0 }, kv("a", 4, 0), kv("b", 5, 2)]));
+        }
+        "removed-never-heartbeated" => {
+            // the member only ever came through the catch-up entry point (heartbeat 0), was found dead
+            // and garbage collected
+            let id = real::to_real_id(&x_id());
+            let kvs = vec![("a".to_string(), VersionedValue { value: "old-a1".into(), version: 1, status: DeletionStatus::Set })];
+            n.cc.reset_node_state_if_update(&id, kvs.into_iter(), 1, 0);
+            n.cc.verif_update_nodes_liveness();
+            crate::clock::advance(Duration::from_secs(21));
+            n.cc.verif_update_nodes_liveness();
+            assert!(n.cc.node_state(&id).is_none(), "harness: member was not removed");
         }
         "removed" => {
             n.cc.verif_process_message(hello(5));
@@ -161,7 +172,9 @@ fn call(n: &mut Node, s: &Supplied) -> Result<(), String> {
 /// Oracle for one call. Returns (what, signature) on violation; `applied` tells whether the key
 /// set was replaced.
 fn judge(existing: &str, before: &CopyView, after: &CopyView, s: &Supplied, live_before: bool, live_after: bool, applied: &mut bool) -> Option<(String, String)> {
-    if existing == "removed" {
+    if existing.starts_with("removed") && before.is_none() {
+        // (gossip may legitimately have re-created the member before the call — a peer advertising a
+        // heartbeat above the one known at removal — in which case it is an ordinary copy again)
         if after.is_some() {
             return Some(("a member that was garbage collected was recreated by the catch-up call".into(), "gc-member-recreated".into()));
         }
@@ -297,7 +310,7 @@ pub fn one_case(existing: &str, s: &Supplied, position: u8, t: &mut Tally) -> Op
             }
         }
     }
-    if existing == "removed" && position == 0 && copy_of(&n).is_some() {
+    if existing.starts_with("removed") && position == 0 && copy_of(&n).is_some() {
         return Some(("garbage collected member present after the call".into(), "gc-member-recreated".into()));
     }
     None
@@ -306,7 +319,7 @@ pub fn one_case(existing: &str, s: &Supplied, position: u8, t: &mut Tally) -> Op
 pub fn run(tier: Tier, started: Instant) -> Vec<Part> {
     let vmax = tier.pick(4u64, 5u64);
     let mut part = Part::new(&format!("catchup/calls(versions 0..{vmax})"));
-    part.rule = format!("reset_node_state_if_update called on a real node for every existing copy in {{absent, empty, (0,2) with two keys, mid-reset (3,0), mid-reset (3,1), ahead (0,5), garbage collected, live}} x every supplied state (key sets over {{a (present in the copy), c (new)}} with versions 0..{vmax} and every status, max_version 0..={vmax}, last_gc_version 0..={vmax}, consistent or not) x position (alone, before a real handshake with a peer that is ahead, after it, between its SYN and SYN-ACK); oracle: no panic, (watermark, max version) not lowered, the copy is unchanged or its key set is the supplied one with the newer version of shared keys, a garbage collected member stays absent, the member does not become live; when the supplied state is internally consistent (distinct versions >= 1, none above its max version) and does not contradict the copy (shared keys not older, one version = one key) gossip afterwards neither panics nor lowers a frontier; non-trivial = calls that replaced the key set");
+    part.rule = format!("reset_node_state_if_update called on a real node for every existing copy in {{absent, empty, (0,2) with two keys, mid-reset (3,0), mid-reset (3,1), ahead (0,5), garbage collected (after heartbeats; after a catch-up only, never a heartbeat), live}} x every supplied state (key sets over {{a (present in the copy), c (new)}} with versions 0..{vmax} and every status, max_version 0..={vmax}, last_gc_version 0..={vmax}, consistent or not) x position (alone, before a real handshake with a peer that is ahead, after it, between its SYN and SYN-ACK); oracle: no panic, (watermark, max version) not lowered, the copy is unchanged or its key set is the supplied one with the newer version of shared keys, a garbage collected member stays absent, the member does not become live; when the supplied state is internally consistent (distinct versions >= 1, none above its max version) and does not contradict the copy (shared keys not older, one version = one key) gossip afterwards neither panics nor lowers a frontier; non-trivial = calls that replaced the key set");
     let supplied = all_supplied(vmax);
     part.bounds = json!({"existing_copies": EXISTING, "supplied_states": supplied.len(), "positions": 4});
     let deadline = started + Duration::from_secs(tier.pick(50, 1500));
